@@ -325,6 +325,28 @@ Section Serde.
   (* ---------- serialisation *)
   Definition is_vnone (v : rvalue) : bool := match v with VNone => true | _ => false end.
 
+  (* the members of a struct, in declaration order; S is the serialiser of member types *)
+  Fixpoint ser_fields (S : rtype -> rvalue -> option json) (vals : list (string * rvalue)) (fs : list rfield)
+    : option (list (string * json)) :=
+    match fs with
+    | [] => Some []
+    | fd :: more =>
+        match assoc (f_ident fd) vals with
+        | None => None
+        | Some x =>
+            if f_flatten fd then
+              match S (f_ty fd) x, ser_fields S vals more with
+              | Some (JObj es), Some rest => Some (es ++ rest)
+              | _, _ => None
+              end
+            else if f_skip_none fd && is_vnone x then ser_fields S vals more
+            else match S (f_ty fd) x, ser_fields S vals more with
+                 | Some jx, Some rest => Some ((field_wire fd, jx) :: rest)
+                 | _, _ => None
+                 end
+        end
+    end.
+
   Fixpoint ser (fuel : nat) (env : list ritem) (t : rtype) (v : rvalue) {struct fuel} : option json :=
     match fuel with
     | O => None
@@ -350,26 +372,7 @@ Section Serde.
               | Some (IStruct _ _ _ fields) =>
                   match v with
                   | VStruct vals =>
-                      option_map JObj
-                        ((fix go (fs : list rfield) : option (list (string * json)) :=
-                            match fs with
-                            | [] => Some []
-                            | fd :: more =>
-                                match assoc (f_ident fd) vals with
-                                | None => None
-                                | Some x =>
-                                    if f_flatten fd then
-                                      match ser f env (f_ty fd) x, go more with
-                                      | Some (JObj es), Some rest => Some (es ++ rest)
-                                      | _, _ => None
-                                      end
-                                    else if f_skip_none fd && is_vnone x then go more
-                                    else match ser f env (f_ty fd) x, go more with
-                                         | Some jx, Some rest => Some ((field_wire fd, jx) :: rest)
-                                         | _, _ => None
-                                         end
-                                end
-                            end) fields)
+                      option_map JObj (ser_fields (ser f env) vals fields)
                   | _ => None
                   end
               | Some (ITagEnum _ _ _ tag variants) =>
